@@ -21,7 +21,7 @@ for l in lines:
     if m and m.group(1) in latest:
         seen.add(m.group(1))
         out.append("| %s | %s | %s |" % (m.group(1), m.group(2), latest[m.group(1)]))
-    elif re.match(r"^\d+ refactors, \d+ raised an alarm\.$", l):
+    elif re.match(r"^\d+ refactors(, \d+ raised an alarm\.| listed, .*)$", l):
         continue
     else:
         if m:
